@@ -77,7 +77,7 @@ pub struct Region {
 }
 
 /// The slice of the VDAF interface the worlds need beyond the library traits.
-pub trait SimVdaf<const VK: usize>: Aggregator<VK, 16> + Collector + Sized {
+pub trait SimVdaf<const VK: usize>: Aggregator<VK, 16, InputShare: 'static, PublicShare: 'static> + Collector + Sized + 'static {
     fn enc_state(s: &Self::VerifyState) -> Result<Vec<u8>, CodecError>;
     fn state_len_hint(s: &Self::VerifyState) -> Option<usize>;
     fn dec_state(&self, agg_id: usize, b: &[u8]) -> Result<Self::VerifyState, CodecError>;
@@ -86,7 +86,7 @@ pub trait SimVdaf<const VK: usize>: Aggregator<VK, 16> + Collector + Sized {
     fn dec_cont(&self, agg_id: usize, b: &[u8]) -> Result<PingPongContinuation<VK, 16, Self>, CodecError>;
 }
 
-impl<T: Type, const S: usize> SimVdaf<S> for Prio3<T, XofTurboShake128, S>
+impl<T: Type + 'static, const S: usize> SimVdaf<S> for Prio3<T, XofTurboShake128, S>
 where
     Prio3<T, XofTurboShake128, S>: Aggregator<S, 16, VerifyState = prio::vdaf::prio3::Prio3VerifyState<T::Field, S>> + Collector,
     XofTurboShake128: prio::vdaf::xof::Xof<S>,
@@ -252,7 +252,7 @@ where
 
 /// How a class maps plan measurements to the library's measurement type and back.
 pub trait P3Class {
-    type T: Type;
+    type T: Type + 'static;
     fn typ(&self) -> &Self::T;
     fn make(inst: &Inst) -> Option<Self::T>;
     fn meas(&self, m: &[N]) -> <Self::T as Type>::Measurement;
